@@ -18,7 +18,7 @@ type parserSpec struct {
 	endian string // "bigEndian" / "littleEndian"
 }
 
-func checkParsers(w *World, r *Report) {
+func checkParsers(w *World, r *Report, rule string) {
 	var ps []parserSpec
 	if fn := w.Func("cmd/thermal-recorder", "convertRawBosonFrame"); fn != nil {
 		ps = append(ps, parserSpec{"Boson (little-endian)", fn, "littleEndian"})
@@ -50,16 +50,16 @@ func checkParsers(w *World, r *Report) {
 					known = true
 				}
 			}
-			r.Check(known, "B1", "parser selected by the recorder is one of the two analysed parsers: "+fn.Name(), w.Pos(sel.Pos()), fn.String())
+			r.Check(known, rule, "parser selected by the recorder is one of the two analysed parsers: "+fn.Name(), w.Pos(sel.Pos()), fn.String())
 		}
 	}
 	r.Check(len(ps) == 2, "G4", "both raw-frame parsers found", "-", fmt.Sprint(len(ps)))
 	for _, p := range ps {
-		checkOneParser(w, r, p)
+		checkOneParser(w, r, p, rule)
 	}
 }
 
-func checkOneParser(w *World, r *Report, p parserSpec) {
+func checkOneParser(w *World, r *Report, p parserSpec, rule string) {
 	e := newTermEnv(w)
 	fn := p.fn
 	// parameters by type: raw []byte, out *Frame, edge int
@@ -77,7 +77,7 @@ func checkOneParser(w *World, r *Report, p parserSpec) {
 		}
 	}
 	if out == nil || edge == nil || raw == nil {
-		r.Unknown("B1", p.name+": parameters", w.Pos(fn.Pos()), "signature is not (raw []byte, out *Frame, edge int)")
+		r.Unknown(rule, p.name+": parameters", w.Pos(fn.Pos()), "signature is not (raw []byte, out *Frame, edge int)")
 		return
 	}
 	P := "cptvframe.Frame.Pix@" + e.termOf(out).String()
@@ -94,7 +94,7 @@ func checkOneParser(w *World, r *Report, p parserSpec) {
 		}
 		stores++
 		addr := e.termOf(a.Addr).String()
-		r.Check(addr == "addr("+PIX+")", "B1", p.name+": pixel (y,x) of the output frame is stored for every y, x in row-major order", w.InstrPos(a.Instr), addr)
+		r.Check(addr == "addr("+PIX+")", rule, p.name+": pixel (y,x) of the output frame is stored for every y, x in row-major order", w.InstrPos(a.Instr), addr)
 		val := e.termOf(a.Val)
 		okv := val.Op == "call" && strings.HasSuffix(val.Name, "binary."+p.endian+".Uint16") && len(val.Args) == 2
 		detail := val.String()
@@ -108,9 +108,27 @@ func checkOneParser(w *World, r *Report, p parserSpec) {
 				okv = base == e.termOf(raw).String() || strings.HasPrefix(base, "slice("+e.termOf(raw).String()+", ")
 			}
 		}
-		r.Check(okv, "B1", p.name+": pixel = "+p.endian+" 16-bit word at a cursor advancing 2 bytes per pixel over the raw data", w.InstrPos(a.Instr), detail)
+		r.Check(okv, rule, p.name+": pixel = "+p.endian+" 16-bit word at a cursor advancing 2 bytes per pixel over the raw data", w.InstrPos(a.Instr), detail)
 	}
-	r.Check(stores == 1, "B1", p.name+": exactly one pixel store", w.Pos(fn.Pos()), fmt.Sprint(stores))
+	r.Check(stores == 1, rule, p.name+": exactly one pixel store", w.Pos(fn.Pos()), fmt.Sprint(stores))
+	// the value just decoded (a parser may test it directly instead of re-reading the pixel it stored)
+	var decoded []string
+	for _, a := range pixAccessesOf(fn) {
+		if a.IsStore && a.Col != nil {
+			decoded = append(decoded, e.termOf(a.Val).String())
+		}
+	}
+	isZeroTest := func(s string) bool {
+		if s == "eq(0, "+PIX+")" {
+			return true
+		}
+		for _, d := range decoded {
+			if s == "eq(0, "+d+")" {
+				return true
+			}
+		}
+		return false
+	}
 	// (2) bad-frame returns
 	wantOr := []string{"lt(" + Y + ", " + E + ")", "lt(" + X + ", " + E + ")", "le((-1*" + E + " + len(" + P + ")), " + Y + ")", "le((-1*" + E + " + len(" + ROW + ")), " + X + ")"}
 	sort.Strings(wantOr)
@@ -131,54 +149,55 @@ func checkOneParser(w *World, r *Report, p parserSpec) {
 			var zero, edgeG string
 			for _, g := range gs {
 				s := g.String()
-				if s == "eq(0, "+PIX+")" {
+				if isZeroTest(s) {
 					zero = s
 				}
 				if strings.HasPrefix(s, "not(or(") {
 					edgeG = s
 				}
 			}
-			r.Check(zero != "", "B1", p.name+": a bad frame is reported only for a zero pixel", w.InstrPos(ret), strings.Join(guardStrings(gs), " ; "))
-			gotOr := ""
-			if edgeG != "" {
-				for _, g := range gs {
-					if g.String() == edgeG {
-						var parts []string
-						for _, a := range g.Cond.Args {
-							parts = append(parts, a.String())
-						}
-						sort.Strings(parts)
-						gotOr = strings.Join(parts, " ∨ ")
+			r.Check(zero != "", rule, p.name+": a bad frame is reported only for a zero pixel", w.InstrPos(ret), strings.Join(guardStrings(gs), " ; "))
+			_ = edgeG
+			// the interior predicate as a set of atomic constraints (form independent: not(a ∨ b) = ¬a ∧ ¬b,
+			// hoisted row tests, nested ifs)
+			var atoms []string
+			for _, g := range gs {
+				for _, a := range atomsOf(g.Cond, g.Pos) {
+					if isZeroTest(a) || strings.HasPrefix(a, "lt(rangeidx(") && strings.Contains(a, ", len(") && !strings.Contains(a, E) || isNilCheck(a) {
+						continue
 					}
+					atoms = append(atoms, a)
 				}
 			}
-			r.Check(gotOr == strings.Join(wantOr, " ∨ "), "B1", p.name+": ...outside the border: not (y<e ∨ x<e ∨ y>=H-e ∨ x>=W-e)", w.InstrPos(ret), gotOr)
+			sort.Strings(atoms)
+			wantAtoms := []string{"le(" + E + ", " + Y + ")", "le(" + E + ", " + X + ")", "lt(" + Y + ", (-1*" + E + " + len(" + P + ")))", "lt(" + X + ", (-1*" + E + " + len(" + ROW + ")))"}
+			sort.Strings(wantAtoms)
+			r.Check(strings.Join(atoms, " ∧ ") == strings.Join(wantAtoms, " ∧ "), rule, p.name+": ...outside the border: e <= y < H-e and e <= x < W-e, nothing more, nothing less", w.InstrPos(ret), strings.Join(atoms, " ∧ "))
 			continue
 		}
 		// other error returns (telemetry) are fine but must not be BadFrameErr
-		r.Pass("B1", p.name+": other error return (telemetry) is not a bad-frame report", w.InstrPos(ret), e.termOf(ret.Results[0]).String())
+		r.Pass(rule, p.name+": other error return (telemetry) is not a bad-frame report", w.InstrPos(ret), e.termOf(ret.Results[0]).String())
 	}
-	r.Check(badReturns == 1 && nilReturns >= 1, "B1", p.name+": one bad-frame return and a success return", w.Pos(fn.Pos()), fmt.Sprintf("%d/%d", badReturns, nilReturns))
+	r.Check(badReturns == 1 && nilReturns >= 1, rule, p.name+": one bad-frame return and a success return", w.Pos(fn.Pos()), fmt.Sprintf("%d/%d", badReturns, nilReturns))
 	// (3) the zero test covers every interior pixel: the If on eq(0,pix) is reached on the false edge of the edge test, inside both loops
 	for _, b := range fn.Blocks {
 		iff, ok := b.Instrs[len(b.Instrs)-1].(*ssa.If)
-		if !ok || e.termOf(iff.Cond).String() != "eq(0, "+PIX+")" {
+		if !ok || !isZeroTest(e.termOf(iff.Cond).String()) {
 			continue
 		}
 		gs := guardStrings(e.guardsOf(b))
-		ok2 := false
-		for _, g := range gs {
-			if strings.HasPrefix(g, "not(or(") {
-				ok2 = true
-			}
-		}
+		ok2 := true
 		extra := 0
-		for _, g := range gs {
-			if !strings.HasPrefix(g, "not(or(") && !strings.HasPrefix(g, "lt(rangeidx(") && !strings.HasPrefix(g, "eq(nil, ") && !strings.HasPrefix(g, "eq(") {
-				extra++
+		for _, g := range e.guardsOf(b) {
+			for _, a := range atomsOf(g.Cond, g.Pos) {
+				okAtom := strings.HasPrefix(a, "lt(rangeidx(") || isNilCheck(a) ||
+					a == "le("+E+", "+Y+")" || a == "le("+E+", "+X+")" || a == "lt("+Y+", (-1*"+E+" + len("+P+")))" || a == "lt("+X+", (-1*"+E+" + len("+ROW+")))"
+				if !okAtom {
+					extra++
+				}
 			}
 		}
-		r.Check(ok2 && extra == 0, "B1", p.name+": every interior pixel is tested for zero (no additional condition skips the test)", w.InstrPos(iff), strings.Join(gs, " ; "))
+		r.Check(ok2 && extra == 0, rule, p.name+": every interior pixel is tested for zero (no additional condition skips the test)", w.InstrPos(iff), strings.Join(gs, " ; "))
 	}
 }
 
@@ -241,4 +260,27 @@ func checkHandleConnMarker(w *World, r *Report, rule string) {
 		return
 	}
 	checkHandleConnMarkerCI(w, r, ci, rule)
+}
+
+// atomsOf flattens a guard into atomic comparisons: a positive and(...) and a negative or(...) split into their
+// members (De Morgan); everything else is one atom in normalised polarity.
+func atomsOf(t *Term, pos bool) []string {
+	if pos && t.Op == "and" || !pos && t.Op == "or" {
+		var out []string
+		for _, a := range t.Args {
+			out = append(out, atomsOf(a, pos)...)
+		}
+		return out
+	}
+	if t.Op == "not" {
+		return atomsOf(t.Args[0], !pos)
+	}
+	if pos {
+		return []string{t.String()}
+	}
+	return []string{tnot(t).String()}
+}
+
+func isNilCheck(a string) bool {
+	return strings.HasPrefix(a, "eq(") && (strings.HasPrefix(a, "eq(nil, ") || strings.HasSuffix(a, ", nil)"))
 }
